@@ -20,7 +20,10 @@ RULE = ("A case is a ring description (hosts with dc/rack/tokens, partitioner), 
         "(<=7 in all) x <=2 racks with murmur3 tokens, plus <=3 (thorough <=4) hosts x 1-2 tokens for the Random and ByteOrdered partitioners; each ring carries "
         "SimpleStrategy RF 1..hosts+1 and NetworkTopologyStrategy with every per-DC RF in 0..4 (not all zero), an absent DC and one transient "
         "setting (judged against Cassandra's FULL replicas); ring tokens are the tokens of fixed probe keys so that keys fall before the first, between, exactly on and after the last "
-        "ring token.  Part random-rings draws rings of <=6 hosts x <=3 racks x <=2 DCs (thorough <=3 DCs) x 1-4 tokens per host with boundary "
+        "ring token.  Part nts-cross-dc enumerates every ring order (one token per host) of two-DC clusters built so that one DC's walk passes hosts "
+        "over for rack diversity and ends before all its racks are seen while the other DC has RF above its rack count: dc0 with racks "
+        "r0 r0 r1 r2 (thorough also r0 r0 r1 r1 r2) and dc1 with 1-2 (thorough 3) hosts in one or two racks, under NTS (dc0,dc1) RF in "
+        "{(2,2),(2,3),(2,1),(1,2),(3,2),(2,-),(-,3)} and SimpleStrategy 3.  Part random-rings draws rings of <=6 hosts x <=3 racks x <=2 DCs (thorough <=3 DCs) x 1-4 tokens per host with boundary "
         "tokens (Long.MIN_VALUE, Long.MAX_VALUE, 0, 2**127, empty/ff.. byte tokens) and tokens derived from the drawn keys (+-1).  For every keyspace the reference "
         "replica set is computed for every ring position; the driver is asked through TokenMap.get_replicas for every ring token and its "
         "+-1 neighbours and through Metadata.get_replicas for the probe keys (all of them on the first two keyspaces, every third on the others).  Non-trivial: a NetworkTopologyStrategy keyspace where rack "
@@ -368,6 +371,59 @@ def small_cases(chunk):
 
 
 # ---------------------------------------------------------------------------------------------
+# two DCs, by construction: one DC with more racks than RF and a same-rack pair (hosts are passed over for rack
+# diversity and the walk ends before every rack is seen), one DC with RF above its rack count (passed-over hosts are
+# taken back as soon as its racks are complete) -- state of one DC's walk must not reach another DC or token range
+# ---------------------------------------------------------------------------------------------
+
+_CROSS_FAMILIES = {
+    # name: (racks of the dc0 hosts, racks of the dc1 hosts)
+    "A0012-B0": ((0, 0, 1, 2), (0,)),
+    "A0012-B00": ((0, 0, 1, 2), (0, 0)),
+    "A0012-B01": ((0, 0, 1, 2), (0, 1)),
+    "A00112-B0": ((0, 0, 1, 1, 2), (0,)),
+    "A0012-B000": ((0, 0, 1, 2), (0, 0, 0)),
+}
+_CROSS_KEYSPACES = [
+    {"class": "NetworkTopologyStrategy", "dc0": "2", "dc1": "2"},
+    {"class": "NetworkTopologyStrategy", "dc0": "2", "dc1": "3"},
+    {"class": "NetworkTopologyStrategy", "dc0": "2", "dc1": "1"},
+    {"class": "NetworkTopologyStrategy", "dc0": "1", "dc1": "2"},
+    {"class": "NetworkTopologyStrategy", "dc0": "3", "dc1": "2"},
+    {"class": "NetworkTopologyStrategy", "dc0": "2"},
+    {"class": "NetworkTopologyStrategy", "dc1": "3"},
+    {"class": "SimpleStrategy", "replication_factor": "3"},
+]
+
+
+def cross_chunks(tier):
+    fams = ["A0012-B0", "A0012-B00", "A0012-B01"] if tier == "quick" else sorted(_CROSS_FAMILIES)
+    chunks = []
+    for f in fams:
+        n = sum(len(x) for x in _CROSS_FAMILIES[f])
+        for first in range(n if n > 5 else 1):      # split the 720+ permutation families by the first ring owner
+            chunks.append({"family": f, "first": first if n > 5 else None})
+    return chunks
+
+
+def cross_cases(chunk):
+    from itertools import permutations
+    ra, rb = _CROSS_FAMILIES[chunk["family"]]
+    n = len(ra) + len(rb)
+    keys, fn = _probe_keys("murmur3", 2 * n + 1)
+    toks = [fn(keys[2 * pos + 1]) for pos in range(n)]
+    probe = [keys[0].hex(), keys[n].hex(), keys[n + 1].hex(), keys[2 * n].hex()]      # before, between, on, after
+    for order in permutations(range(n)):            # order[pos] = host owning ring position pos (one token per host)
+        if chunk["first"] is not None and order[0] != chunk["first"]:
+            continue
+        hosts = []
+        for i in range(n):
+            dc, rack = ("dc0", ra[i]) if i < len(ra) else ("dc1", rb[i - len(ra)])
+            hosts.append({"dc": dc, "rack": "r%d" % rack, "tokens": [toks[order.index(i)]]})
+        yield {"partitioner": "murmur3", "hosts": hosts, "keyspaces": _CROSS_KEYSPACES, "keys": probe}
+
+
+# ---------------------------------------------------------------------------------------------
 # random larger rings
 # ---------------------------------------------------------------------------------------------
 
@@ -419,6 +475,7 @@ def s_random(max_dcs):
 def parts(tier):
     return [
         EnumPart("small-rings", small_chunks(tier), small_cases, interpret),
-        hyp_part("random-rings", s_random(2 if tier == "quick" else 3), interpret, tier, quick=250, thorough=3000,
+        EnumPart("nts-cross-dc", cross_chunks(tier), cross_cases, interpret),
+        hyp_part("random-rings", s_random(2 if tier == "quick" else 3), interpret, tier, quick=180, thorough=3000,
                  quick_shards=2, thorough_shards=16),
     ]
